@@ -228,7 +228,7 @@ type tables struct {
 	plain               []byte // what the implementation's primitives decrypt to, if they get that far
 }
 
-func runKDF(ps parsed, pass []byte) (key string, dk []byte, res string, heavy bool) {
+func runKDF(ps parsed, pass []byte, allowHeavy ...bool) (key string, dk []byte, res string, heavy bool) {
 	if !ps.saltOK || !ps.dklenOK {
 		return "", nil, "", false
 	}
@@ -243,7 +243,7 @@ func runKDF(ps parsed, pass []byte) (key string, dk []byte, res string, heavy bo
 		if !ps.nOK || !ps.rOK || !ps.pOK {
 			return "", nil, "", false
 		}
-		if ps.n > 1<<15 || ps.r > 64 || ps.p > 64 || ps.r*ps.p > 256 || ps.n*ps.r > 1<<19 {
+		if len(allowHeavy) == 0 && (ps.n > 1<<15 || ps.r > 64 || ps.p > 64 || ps.r*ps.p > 256 || ps.n*ps.r > 1<<19) {
 			return "", nil, "", true
 		}
 		key = fmt.Sprintf("scrypt/%s/%s/%s", zhex(ps.n), zhex(ps.r), zhex(ps.p))
@@ -878,7 +878,7 @@ func (h *harness) encryptCase(r *vh.RNG, key *btcec.PrivateKey, pass string, n, 
 	if !ps.ok || !ps.saltOK || !ps.ivOK {
 		c.Fatal("cannot parse the file EncryptKey produced: %s", js)
 	}
-	kk, dk, res, _ := runKDF(ps, []byte(pass))
+	kk, dk, res, _ := runKDF(ps, []byte(pass), true) // the parameters are the ones EncryptKey was just given
 	ctrT := "-"
 	if len(dk) >= 32 {
 		ct, err := keystore.VerifAesCTRXOR(dk[:16], kb, ps.iv)
@@ -1593,7 +1593,7 @@ func main() {
 	done := map[string]int{}
 	for _, spec := range specs {
 		done[spec.kind]++
-		if done[spec.kind] <= c.Scale(1, 4) {
+		if done[spec.kind] <= c.Scale(1, 2) {
 			h.sweepCharacters(spec, c.Thorough(), 1)
 			h.structural(spec)
 		} else if done[spec.kind] <= c.Scale(2, 12) {
